@@ -120,6 +120,8 @@ func executeRun(s *RunSpec, runIdx int, racePath string) (doneEv, *violEv) {
 		viols = checkRefAgreement(s, pre, ref, viols)
 		viols = checkAgainstReference(s, nil, pre, viols)
 	}
+	viols = append(viols, checkStash(runIdx)...)
+	stashFrom(s, conc, runIdx)
 
 	d := doneEv{Ev: "done", Run: runIdx, Seed: s.Seed, Cold: s.Cold, Mode: s.Mode, Tasks: len(s.Tasks),
 		Steps: steps, Switches: switches, Inflight: inflight, Strat: stratNames[s.Sched.Strat], Gran: granNames[s.Sched.Gran],
